@@ -236,10 +236,50 @@ class Base:
         if op["op"] == "look":
             self.check("look")
             return
+        if op["op"] == "share":
+            self.op_share(op)
+            return
         try:
             self._apply(op)
         finally:
             self.quiet = False
+
+    def op_share(self, op):
+        """an item of this block is ALSO added to another block of the same kind, there under another channel (re-packing signals into a new
+        block numbered from 0; one item object in two containers): this block's pairs are its own business and stay what they are - also
+        when the item is removed here afterwards"""
+        if not self.model:
+            return
+        if not hasattr(self, "other"):
+            self.other, self.other_used = self.make_other(), set()
+        idx = op.get("idx", 0) % len(self.model)
+        ch_here, iid = self.model[idx]
+        item = self.items[iid][0]
+        others_here = [c for c, i in self.model if i != iid and c not in self.other_used and c != ch_here]
+        if op.get("mode") == "taken-here" and others_here:
+            ch = others_here[op.get("ch", 0) % len(others_here)]      # a channel number that is in use HERE, by another item
+        else:
+            ch = 20000 + (op.get("ch", 0) * 7 + len(self.other_used)) % 10000
+            while ch in self.other_used or ch == ch_here:
+                ch += 1
+        try:
+            (self.other.addSignal if self.t == "emg" else self.other.add_platform)(item, channel=ch)
+            self.other_used.add(ch)
+            self.stats["items-shared-with-another-block"] = self.stats.get("items-shared-with-another-block", 0) + 1
+        except Exception:  # noqa - the other block's business
+            pass
+        self.check("share")
+
+    def make_other(self):
+        n = getattr(self, "N", 2)
+        if self.t == "emg":
+            from basictdf.tdfEMG import EMG
+            return EMG(1000, n)
+        if self.t == "platCal":
+            from basictdf.tdfForcePlatformsCalibration import ForcePlatformsCalibrationDataBlock
+            return ForcePlatformsCalibrationDataBlock()
+        from basictdf.tdfForcePlatformsData import ForcePlatformsDataBlock
+        return ForcePlatformsDataBlock(0.0, 100, n)
 
     def add_call(self, method, item, ch):
         """the channel is passed by keyword and positionally in turn: (item, channel=None) is the documented signature"""
@@ -687,18 +727,19 @@ def ops(t):
                                   "quiet": st.booleans()})
     readd = st.fixed_dictionaries({"op": st.just("readd"), "mode": st.sampled_from(["auto", "free"]), "idx": idx, "ch": ch})
     bad = st.fixed_dictionaries({"op": st.just("add-invalid"), "mode": st.sampled_from(["auto", "free", "free"]), "ch": ch, "idx": idx})
+    share = st.fixed_dictionaries({"op": st.just("share"), "idx": idx, "ch": ch, "mode": st.sampled_from(["taken-here", "taken-here", "fresh"])})
     if t == "emg":
         rem = st.fixed_dictionaries({"op": st.just("remove"), "target": st.sampled_from(["present", "present", "absent", "via-shallow-copy"]), "idx": idx, "quiet": st.booleans()})
-        return st.one_of(add, add, rem, rem, readd, bad)
+        return st.one_of(add, add, rem, rem, readd, bad, share)
     if t == "platCal":
         rem = st.fixed_dictionaries({"op": st.just("remove"), "target": st.sampled_from(["index", "item", "index-out-of-range", "absent-item", "negative-index", "negative-index",
                                                                                          "negative-index-out-of-range"]), "idx": idx, "quiet": st.booleans()})
         many = st.fixed_dictionaries({"form": st.sampled_from(["list", "tuple", "generator", "zip", "iter", "dict-items"]),
                                       "op": st.sampled_from(["remove-many", "add-many", "assign", "assign", "add-many-unequal"]), "mode": st.sampled_from(["free", "auto", "collide"]), "idx": idx, "ch": ch})
         twin = st.fixed_dictionaries({"op": st.just("add-twin"), "idx": idx, "ch": ch})
-        return st.one_of(add, add, rem, rem, rem, many, readd, twin, bad)
+        return st.one_of(add, add, rem, rem, rem, many, readd, twin, bad, share)
     assign = st.fixed_dictionaries({"op": st.just("assign"), "mode": st.sampled_from(["valid", "valid", "collide"]), "idx": idx})
-    return st.one_of(add, add, add, assign, bad)
+    return st.one_of(add, add, add, assign, bad, share)
 
 
 INTERP = {"emg": EmgInterp, "platCal": PlatCalInterp, "platData": PlatDataInterp}
@@ -726,6 +767,14 @@ def enum_unobserved(tier):
         for start in starts:
             for k in (1, 2, 3):
                 for ch0 in (0, 7):
+                    for si in range(k if start != "empty" or True else 0):
+                        # one item also added to ANOTHER block (under a channel in use here / a fresh one), then removed here, then an add
+                        for mode in ("taken-here", "fresh"):
+                            pre = [] if start != "empty" else [{"op": "add", "mode": "free", "ch": 40 + 3 * j, "np": False, "reuse": False} for j in range(k)]
+                            rem = [] if t == "platData" else [{"op": "remove", "target": "present" if t == "emg" else "index", "idx": si}]
+                            yield {"init": {"start": start, "k": k, "ch0": ch0}, "_script": f"{t}|{start}|k={k}|ch0={ch0}|share-{mode}-{si}",
+                                   "ops": pre + [{"op": "share", "idx": si, "ch": si, "mode": mode}] + rem + [{"op": "add", "mode": "free", "ch": 300, "np": False, "reuse": False},
+                                                                                                              {"op": "look"}]}
                     for length in (2, 3):
                         for seq in itertools.product(alphabet[t], repeat=length):
                             ops_ = [] if start != "empty" else [{"op": "add", "mode": "free", "ch": 40 + 3 * j, "np": False, "reuse": False} for j in range(k)]
